@@ -173,7 +173,9 @@ def register(R: Registry):
     register_sholl(R)
     register_padding(R)
     register_lmeasure(R)
-    register_frontend(R, register_features(R))
+    H = register_features(R)
+    register_frontend(R, H)
+    register_topology_features(R, H)
 
 
 def register_nodes(R):
@@ -853,3 +855,243 @@ def register_frontend(R, H):
           ensures=[("the-number-of-the-named-feature", get_post)],
           notes="dispatch by name: node_count (symbolic tree), length (trees of 1-3 nodes), node_radial_distance / furcation_count / "
                 "tip_count (trees of 3 nodes), an unknown name and the deprecated bifurcation_count (no evaluator: ValueError)")
+
+
+# ===========================================================================
+# features that need the traversal: trees of a FIXED topology (concrete parent vector), all coordinates symbolic
+class Topo:
+    """THE textbook definitions over a concrete parent vector (node i has parent pids[i], -1 for the root), written
+    with explicit loops and independent of the library: children, tips, furcations, root paths, branches, subtrees"""
+
+    def __init__(self, pids):
+        self.pids, self.n = list(pids), len(pids)
+        self.root = self.pids.index(-1)
+
+    def kids(self, i):
+        return [j for j in range(self.n) if self.pids[j] == i]
+
+    def is_tip(self, i):
+        return len(self.kids(i)) == 0
+
+    def is_furcation(self, i):
+        return len(self.kids(i)) > 1
+
+    def tips(self):
+        return [i for i in range(self.n) if self.is_tip(i)]
+
+    def furcations(self):
+        return [i for i in range(self.n) if self.is_furcation(i)]
+
+    def root_path(self, i):
+        out = [i]
+        while self.pids[out[-1]] != -1:
+            out.append(self.pids[out[-1]])
+        return out[::-1]
+
+    def paths(self):
+        """one root-to-tip node list per tip"""
+        return [self.root_path(i) for i in self.tips()]
+
+    def branches(self):
+        """maximal chains that start at the root or a furcation, run through pass-through nodes only and end at a
+        furcation or a tip"""
+        out = []
+        for b in range(self.n):
+            if b == self.root or self.is_furcation(b):
+                for c in self.kids(b):
+                    chain = [b, c]
+                    while len(self.kids(chain[-1])) == 1:
+                        chain.append(self.kids(chain[-1])[0])
+                    out.append(chain)
+        return out
+
+    def subtree(self, i):
+        return [j for j in range(self.n) if i in self.root_path(j)]
+
+    def terminal_degree(self, i):
+        return sum(1 for j in self.subtree(i) if self.is_tip(j))
+
+    def remote_end(self, c):
+        while len(self.kids(c)) == 1:
+            c = self.kids(c)[0]
+        return c
+
+    def critical_order(self):
+        """critical node (root, furcation, tip) -> number of branches between it and the root"""
+        out = {}
+        for c in range(self.n):
+            if c == self.root or self.is_tip(c) or self.is_furcation(c):
+                out[c] = sum(1 for a in self.root_path(c)[:-1] if a == self.root or self.is_furcation(a))
+        return out
+
+
+def rooted_trees(n):
+    """every parent vector of a labelled tree on 0..n-1 with root 0 (any numbering of the other nodes)"""
+    import itertools
+
+    out = []
+    for ps in itertools.product(range(n), repeat=n - 1):
+        pids = [-1] + list(ps)
+        ok = True
+        for i in range(1, n):
+            seen, j = set(), i
+            while j != 0 and j not in seen:
+                seen.add(j)
+                j = pids[j]
+            ok = ok and j == 0
+        if ok:
+            out.append(pids)
+    return out
+
+
+TOPOS = [p for n in (1, 2, 3, 4) for p in rooted_trees(n)]  # 1 + 1 + 3 + 16 topologies
+BIGGER = [[-1, 0, 1, 1, 2, 3], [-1, 0, 1, 2, 2, 3, 4], [-1, 0, 0, 1, 1, 2], [-1, 0, 1, 1, 1, 2]]  # stems / pass-through nodes below a furcation
+INLINE = ["swc_utils/base.py:traverse", "swc_utils/base.py:_traverse_dfs", ":Tree.traverse", ":Tree.Node.traverse",
+          ":Path.length", ":Path.tortuosity", ":Path.straight_line_distance", ":Tree.Node.radial_distance", ":Tree.length"]
+
+
+def pname(pids):
+    return "pid=" + ",".join(str(p) for p in pids)
+
+
+def topo_tree(S, pids, name="t"):
+    """a Tree whose id / pid columns are the given CONCRETE topology (id[i] = i) and whose type, coordinate and radius
+    columns are symbolic; frozen: any store into it is a failed frame obligation"""
+    from pyvc.values import PDict, PList
+    from swcgeom.core.swc_utils import get_names, get_types
+    from swcgeom.core.tree import Tree
+
+    n = len(pids)
+    cols = {}
+    for c, k in COLS.items():
+        if c == "id":
+            its = list(range(n))
+        elif c == "pid":
+            its = list(pids)
+        else:
+            its = [S.int(f"{name}_{c}{i}") if k == "int" else S.real(f"{name}_{c}{i}") for i in range(n)]
+        a = NArr((n,), its, k)
+        a.frozen = True
+        cols[c] = a
+    nd = PDict(cols)
+    nd.frozen = True
+    t = S.obj(Tree, ndata=nd, names=get_names(), types=get_types(), source="", comments=PList([]))
+    t.frozen = True
+    return t
+
+
+def pids_of(t):
+    return [int(p) for p in col(t, "pid").items]
+
+
+def same_multiset(got, want, eq):
+    """`got` is a permutation of `want` (element relation `eq`)"""
+    import itertools
+
+    if len(got) != len(want):
+        return False
+    if not got:
+        return True
+    m = [[eq(g, w) for w in want] for g in got]
+    return z3.Or(*[z3.And(*[m[a][p[a]] for a in range(len(got))]) for p in itertools.permutations(range(len(want)))])
+
+
+def register_topology_features(R, H):
+    from swcgeom.analysis.features import BranchFeatures, PathFeatures
+    from swcgeom.core.tree import Tree
+
+    as_arrays = H["as_arrays"]
+
+    class Geo:
+        """distances of one concrete-shape tree inside one clause (each dist term is built once)"""
+
+        def __init__(self, E, t):
+            self.E, self.ta, self.memo = E, as_arrays(t), {}
+
+        def d(self, a, b):
+            k = (min(a, b), max(a, b))
+            if k not in self.memo:
+                self.memo[k] = dist(self.E, self.ta, z3.IntVal(k[0]), z3.IntVal(k[1]))
+            return self.memo[k]
+
+        def chain_len(self, nodes):
+            ys = [self.d(a, b) for a, b in zip(nodes, nodes[1:])]
+            return sum(ys) if ys else z3.RealVal(0)
+
+        def tort_is(self, nodes, r):
+            ln, c = self.chain_len(nodes), self.d(nodes[-1], nodes[0])
+            return z3.If(ln == 0, r == 1, r * ln == c)
+
+    def node_lists(objs, t, cls):
+        """the node lists of a list of Path / Branch views on tree t (None if it is anything else)"""
+        if not (isinstance(objs, PList_) and objs.items is not None):
+            return None
+        out = []
+        for b in objs.items:
+            idx = b.fields.get("idx") if isinstance(b, Obj_) else None
+            if not (isinstance(b, Obj_) and b.cls is cls and b.fields.get("attach") is t and isinstance(idx, NArr) and idx.ndim == 1 and all(isinstance(a, int) for a in idx.items)):
+                return None
+            out.append(list(idx.items))
+        return out
+
+    from pyvc.values import Obj as Obj_, PList as PList_
+
+    # ------------------------------------------------ BranchFeatures / PathFeatures on a cold cache
+    def listed(field, cls, want):
+        """the cached list (filled by this call) holds exactly the textbook chains of the tree, each once"""
+        def f(E, v, o):
+            t = o["self"].fields["tree"]
+            got = node_lists(v["self"].fields.get(field), v["self"].fields["tree"], cls)
+            return got is not None and sorted(got) == sorted(want(Topo(pids_of(t))))
+
+        return f
+
+    def per_chain(field, cls, what):
+        """result[k] is the length / tortuosity of the k-th listed chain, computed from the tree's coordinates"""
+        def f(E, v, o):
+            t = v["self"].fields["tree"]
+            got, res = node_lists(v["self"].fields.get(field), t, cls), v["result"]
+            if got is None or not (isinstance(res, NArr) and res.shape == (len(got),)):
+                return False
+            g = Geo(E, t)
+            if what == "length":
+                return z3.And(*[to_z3(res.items[k], "real") == g.chain_len(nodes) for k, nodes in enumerate(got)]) if got else True
+            return z3.And(*[g.tort_is(nodes, to_z3(res.items[k], "real")) for k, nodes in enumerate(got)]) if got else True
+
+        return f
+
+    def multiset(what, want):
+        """THE top-level statement: the returned values are, as a multiset, the values of the textbook chains"""
+        def f(E, v, o):
+            t, res = o["self"].fields["tree"], v["result"]
+            chains = want(Topo(pids_of(t)))
+            if not (isinstance(res, NArr) and res.shape == (len(chains),)):
+                return False
+            g = Geo(E, t)
+            if what == "length":
+                return same_multiset(res.items, [g.chain_len(c) for c in chains], lambda r, w: to_z3(r, "real") == w)
+            return same_multiset(res.items, chains, lambda r, nodes: g.tort_is(nodes, to_z3(r, "real")))
+
+        return f
+
+    def cold(cls):
+        return {pname(p): (lambda S, _p=p: dict(self=S.obj(cls, tree=topo_tree(S, _p)))) for p in TOPOS + BIGGER}
+
+    SIZE_NOTE = ("topology fixed per variant: every labelled rooted tree of 1-4 nodes (21 parent vectors) and 4 shapes of 6-7 nodes; "
+                 "type, coordinates and radii symbolic; the traversal (Tree.traverse / swc_utils.traverse) is executed from its real source")
+    for cls, field, ccls, want, key in ((BranchFeatures, "_branches", Tree.Branch, Topo.branches, "branches"), (PathFeatures, "_paths", Tree.Path, Topo.paths, "paths")):
+        nm = cls.__name__
+        R.add(f"{FEAT}:{nm}.get_length", prop="C10", variants=cold(cls), options=dict(inline_calls=INLINE),
+              ensures=[(f"multiset-of-the-lengths-of-the-textbook-{key}", multiset("length", want)),
+                       (f"cache-holds-exactly-the-textbook-{key}", listed(field, ccls, want)),
+                       ("value-k-is-the-sum-of-consecutive-node-distances-of-listed-chain-k", per_chain(field, ccls, "length"))],
+              notes=SIZE_NOTE)
+        R.add(f"{FEAT}:{nm}.get_tortuosity", prop="C10", variants=cold(cls), options=dict(inline_calls=INLINE),
+              ensures=[(f"multiset-of-the-tortuosities-of-the-textbook-{key}", multiset("tortuosity", want)),
+                       (f"cache-holds-exactly-the-textbook-{key}", listed(field, ccls, want)),
+                       ("value-k-is-chord-over-length-of-listed-chain-k-or-one-for-zero-length", per_chain(field, ccls, "tortuosity"))],
+              notes=SIZE_NOTE)
+        R.add(f"{FEAT}:{nm}.get_count", prop="C10", variants=cold(cls), options=dict(inline_calls=INLINE),
+              ensures=[(f"number-of-textbook-{key}", lambda E, v, o, _w=want: v["result"] == len(_w(Topo(pids_of(o["self"].fields["tree"]))))),
+                       (f"cache-holds-exactly-the-textbook-{key}", listed(field, ccls, want))],
+              notes=SIZE_NOTE)
